@@ -1501,4 +1501,83 @@ theorem value_function (hsol : SolverOK sol) (A : Nat → Mat ℝ ns ns) (B : Na
 
 end valuefn
 
+/-! ## Part 12 — `K_t`, `V_t` (and the matrices handed to Cholesky) belong to the PROBLEM, not to the nominal or the start -/
+
+section gainsindep
+variable {ns nc : Nat}
+variable (sol : Solver ℝ ns nc) (A : Nat → Mat ℝ ns ns) (B : Nat → Mat ℝ ns nc) (c : Nat → Vec ℝ ns) (P : Prob ℝ ns nc) (dt : Nat)
+
+/-- `Qt` of one backward iteration depends on the next value function only through `V` and not on the nominal -/
+theorem stageQ_fst_indep (xbar xbar' : Nat → Vec ℝ ns) (ubar ubar' : Nat → Vec ℝ nc) (t : Nat) (nxt nxt' : Option (Val ℝ ns))
+    (h : nxt.map (·.V) = nxt'.map (·.V)) :
+    (stageQ (Sys.linear A B c) P dt xbar ubar t nxt).1 = (stageQ (Sys.linear A B c) P dt xbar' ubar' t nxt').1 := by
+  cases nxt with
+  | none =>
+    cases nxt' with
+    | none => rfl
+    | some w' => simp at h
+  | some w =>
+    cases nxt' with
+    | none => simp at h
+    | some w' =>
+      have hV : w.V = w'.V := by simpa using h
+      simp only [stageQ, Sys.linear, hV]
+
+/-- gain matrix, `Quu`, `Qux` and the new `V` of one backward iteration: independent of the nominal -/
+theorem stage_KV_indep (xbar xbar' : Nat → Vec ℝ ns) (ubar ubar' : Nat → Vec ℝ nc) (t : Nat) (nxt nxt' : Option (Val ℝ ns))
+    (h : nxt.map (·.V) = nxt'.map (·.V)) :
+    (stage sol (Sys.linear A B c) P dt xbar ubar t nxt).1.K = (stage sol (Sys.linear A B c) P dt xbar' ubar' t nxt').1.K ∧
+    (stage sol (Sys.linear A B c) P dt xbar ubar t nxt).1.Quu = (stage sol (Sys.linear A B c) P dt xbar' ubar' t nxt').1.Quu ∧
+    (stage sol (Sys.linear A B c) P dt xbar ubar t nxt).1.Qux = (stage sol (Sys.linear A B c) P dt xbar' ubar' t nxt').1.Qux ∧
+    (stage sol (Sys.linear A B c) P dt xbar ubar t nxt).2.V = (stage sol (Sys.linear A B c) P dt xbar' ubar' t nxt').2.V := by
+  have hq := stageQ_fst_indep A B c P dt xbar xbar' ubar ubar' t nxt nxt' h
+  simp only [stage, hq, and_self]
+
+/-- the whole backward loop: the lists of `K_t`, `Quu_t`, `Qux_t` and the final `V` do not depend on the nominal trajectory
+(neither on `u_traj` nor, through the roll-out, on `x_init`) -/
+theorem bwFrom_KV_indep (xbar xbar' : Nat → Vec ℝ ns) (ubar ubar' : Nat → Vec ℝ nc) (n : Nat) : ∀ t,
+    (bwFrom sol (Sys.linear A B c) P dt xbar ubar t n).1.map (·.V) = (bwFrom sol (Sys.linear A B c) P dt xbar' ubar' t n).1.map (·.V) ∧
+    (bwFrom sol (Sys.linear A B c) P dt xbar ubar t n).2.map (fun g => (g.K, g.Quu, g.Qux))
+      = (bwFrom sol (Sys.linear A B c) P dt xbar' ubar' t n).2.map (fun g => (g.K, g.Quu, g.Qux)) := by
+  induction n with
+  | zero => intro t; exact ⟨rfl, rfl⟩
+  | succ n ih =>
+    intro t
+    obtain ⟨hV, hG⟩ := ih (t+1)
+    obtain ⟨h1, h2, h3, h4⟩ := stage_KV_indep sol A B c P dt xbar xbar' ubar ubar' t _ _ hV
+    rw [bwFrom_succ, bwFrom_succ]
+    refine ⟨?_, ?_⟩
+    · simp only [Option.map_some]; rw [h4]
+    · simp only [List.map_cons]; rw [h1, h2, h3, hG]
+
+end gainsindep
+
+section feedback
+variable {ns nc : Nat}
+
+/-- the `j`-th input of the forward loop is the feedback law of the `j`-th gain at the `j`-th state -/
+theorem fwFrom_input (S : Sys ℝ ns nc) (P : Prob ℝ ns nc) (xbar : Nat → Vec ℝ ns) (ubar : Nat → Vec ℝ nc) (g0 : Gain ℝ ns nc) (j : Nat) :
+    ∀ (t : Nat) (x : Vec ℝ ns) (gs : List (Gain ℝ ns nc)), j < gs.length →
+    nth (fwFrom S P xbar ubar t t x gs).2.1 j
+      = ctrl xbar ubar (gs.getD j g0) (t + j) (nth (x :: (fwFrom S P xbar ubar t t x gs).1) j) := by
+  induction j with
+  | zero =>
+    intro t x gs h
+    cases gs with
+    | nil => simp at h
+    | cons g gs => rw [fwFrom_cons]; simp [nth]
+  | succ j ih =>
+    intro t x gs h
+    cases gs with
+    | nil => simp at h
+    | cons g gs =>
+      rw [fwFrom_cons]
+      have := ih (t+1) (S.f t x (ctrl xbar ubar g t x)) gs (by simpa using h)
+      simp only [nth_cons_succ, List.getD_cons_succ] at this ⊢
+      rw [this]
+      have e : t + 1 + j = t + (j + 1) := by omega
+      rw [e]
+
+end feedback
+
 end PP.Lqr
